@@ -11,6 +11,7 @@ Don't-care zones (verdict not taken, execution still checked for coherence): see
 """
 from __future__ import annotations
 
+import copy
 import itertools
 
 from mc.common import Counter, pmap, violation
@@ -88,7 +89,7 @@ class Universe:
             self.specs = [(x, p) for x in self.keys for p in (0, 1)]
             self.keyfn, self.targs = None, (_spec_classes()["SItem"], str)
             self.wrong = [("wrong_item", "q"), ("wrong_item2", ("SOther", 9))]
-            self.hashable = False
+            self.hashable = True  # (by identity: a built-in set operand can hold them, and finds none of them by value)
         elif name == "mod2":
             # ints keyed by parity: the items 0 / 2 share key 0 (a FALSY stored item), 1 / 3 share key 1
             self.keys = ["k0", "k1"]
@@ -355,7 +356,9 @@ LAST = {"operand": None}
 
 
 def mk_operand(u, pool, kind, content):
-    objs = [(u.wrong_obj(x[1]) if x[0] == "w" else pool[(x[0], x[1])]) for x in content]
+    # operand members are EQUAL COPIES of the pool objects, never the very objects the receiver holds: whether two sets
+    # "share an item" must not hinge on object identity (spec-class instances compare by value but hash by identity)
+    objs = [(u.wrong_obj(x[1]) if x[0] == "w" else copy.deepcopy(pool[(x[0], x[1])])) for x in content]
     if kind == "ksu":
         # an UNTYPED KeyedSet with the receiver's key function (what a typed receiver must still validate item by item)
         from spec_classes.types import KeyedSet
@@ -516,7 +519,10 @@ def apply_model(m, op, u, pool):
         allowed.setdefault(k, []).append(o)
     for k, o in zip(bkeys, objs):
         allowed.setdefault(k, []).append(o)
-    judged = not conflict or (kind == "ks" and not u.enforce)
+    # a built-in set / list operand has no keys of its own: its members are identified by the receiver's key function too.
+    # Left as don't-care: == / != against it (value based by documentation), operands holding two members of one key,
+    # and conflicts under enforce_item_equivalence (which of the two refusals comes first is not stated)
+    judged = not conflict or (not u.enforce and not dup_in_operand and (kind == "ks" or name not in ("eq", "ne")))
     if name in ("or", "ror"):
         keys = A_keys | B_keys
     elif name in ("and", "rand"):
@@ -665,7 +671,11 @@ def step(u, pool, canon, s, m, op, case, out):
             ritems = list(got)
             rkeys = [u.key_of(x) for x in ritems]
             bad = sorted(repr(k) for k in rkeys) != sorted(repr(k) for k in keys)
-            bad_item = any(not any(x is a for a in allowed.get(k, [])) for k, x in zip(rkeys, ritems))
+            try:
+                members = list(LAST["operand"]) if LAST["operand"] is not None else []  # (the operand holds equal COPIES of the pool objects)
+            except Exception:
+                members = []
+            bad_item = any(not any(x is a for a in allowed.get(k, [])) and not any(x is a for a in members) for k, x in zip(rkeys, ritems))
             pr = coherent(got, u, canon, is_result=True)
             robs_keys = sorted(repr(k) for k in got.keys())
             if bad or bad_item or pr or robs_keys != sorted(repr(k) for k in keys):
@@ -709,6 +719,21 @@ def step(u, pool, canon, s, m, op, case, out):
     return ok, s2, m2, "ok"
 
 
+def sync(m, s, canon):
+    """operands hold equal COPIES of the pool objects, so after an in-place operator the container may hold a copy where the
+    model holds the pool object: the model adopts the container's object when both denote the same item (identity of
+    results is then judged against what the container really holds)"""
+    out = dict(m)
+    for k, v in m.items():
+        try:
+            real = s.get(k)
+        except Exception:
+            continue
+        if real is not None and real is not v and canon.item(real) == canon.item(v):
+            out[k] = real
+    return out
+
+
 def build(u, history):
     pool = u.fresh_pool()
     canon = Canon(pool)
@@ -719,7 +744,7 @@ def build(u, history):
         got, s = apply_impl(s, op, u, pool)
         if isinstance(exp, tuple) and exp and exp[0] == "popped":
             m2 = {k: v for k, v in m.items() if v is not got}
-        m = m2
+        m = sync(m2 if m2 is not None else m, s, canon)
     return pool, canon, s, m
 
 
